@@ -1,62 +1,62 @@
 TRUST = "Trusts rustc/cargo, proptest, the harness's own reference model where one is used (cross-checked against published perft counts in every run), and 64-bit hashing for distinct counting. Exploration only: absence of violations is established on the enumerated families, sampled elsewhere."
 
 add("C01", "differential PBT against an independent reference move generator (proptest byte genomes, exhaustive small families, published perft)",
-    "Generated-input search: 300k (quick) / 8M (thorough) valid positions from 12 constructive sources per build configuration, a slice of / all 3-man positions and an enumerated 5-man en-passant family; every legal generator is compared move-set-for-move-set with a naive mailbox reference, and every other decider of legality is compared on all 7,781 well-formed moves. Falsification only.",
+    "Generated-input search: hundreds of thousands (quick) / millions (thorough) of valid positions from 16 constructive sources per build configuration, a slice of / all 3-man positions and an enumerated 5-man en-passant family; every legal generator is compared move-set-for-move-set with a naive mailbox reference, and every other decider of legality is compared on all 7,781 well-formed moves. Falsification only.",
     TRUST, "DESIGN.md §6 C01")
 add("C02", "PBT with a reference-legal-set oracle, re-validation identity and unchanged-on-refusal snapshots; walks mixing entry points",
     "Generated positions x all well-formed Move values, UCI strings (all 20,481 for a share of positions) and SAN texts through make_move / make / make_raw / MoveChain::push, plus walks of up to 100 applications: accepted iff reference-legal, result equals the reference apply(), re-validates identically, refusals leave full snapshots unchanged and never panic (both build configurations).",
     TRUST, "DESIGN.md §6 C02")
 add("C03", "differential PBT against a by-the-rules reference apply(), counters at their limits",
-    "600k (quick) positions x every legal move: resulting raw position and FEN text compared field by field with the reference successor, through make_move, make_raw and make::Uci; counter edge values are part of every source; label histogram proves each special path is hit.",
+    "every legal move of each generated position (counts in the evidence file): resulting raw position and FEN text compared field by field with the reference successor, through make_move, make_raw and make::Uci; counter edge values are part of every source; label histogram proves each special path is hit.",
     TRUST, "DESIGN.md §6 C03")
 add("C04", "snapshot-invariant PBT over single moves and generated nested make/unmake histories (raw, MoveChain, Walker)",
-    "Full-state snapshots (raw fields, hash, all 16 occupancy sets via a read-only hook) compared before make and after unmake for every semilegal and null move of 600k positions, and along 200k generated nested histories (depth up to ~120) replayed through raw make/unmake, MoveChain push/pop and Walker.",
+    "Full-state snapshots (raw fields, hash, all 16 occupancy sets via a read-only hook) compared before make and after unmake for every semilegal and null move of each generated position, along generated nested histories (depth up to ~120), and along chains of more than 2^16 plies replayed through raw make/unmake, MoveChain push/pop and Walker.",
     TRUST, "DESIGN.md §6 C04")
 add("C05", "recomputation-invariant PBT over histories, metamorphic transposition check, exhaustive key-distinctness enumeration",
-    "After every step of 250k + 200k generated apply/undo histories the stored hash and sets are compared with a from-scratch recomputation; two move orders reaching one position must hash equally; all single-feature differences (4,992 cell pairs per base board, side, 120 rights pairs, 2,080 mark pairs) must hash differently (exhaustive).",
+    "After every step of generated apply/undo histories, and on boards fresh from the validation gate / FEN parser, the stored hash and sets are compared with a from-scratch recomputation; two move orders reaching one position must hash equally; all single-feature differences (4,992 cell pairs per base board, side, 120 rights pairs, 2,080 mark pairs) must hash differently (exhaustive).",
     TRUST, "DESIGN.md §6 C05")
 add("C06", "exhaustive enumeration of all 532,480 move tuples + differential PBT of semilegal generation/validation against the reference",
-    "Move::new decided on every tuple against coordinate geometry (exhaustive, every run); 250k positions x all 7,781 well-formed moves: is_semilegal <=> generator membership <=> reference pseudo-legal set; partition identities of the generators.",
+    "Move::new decided on every tuple against coordinate geometry (exhaustive, every run); generated positions x all 7,781 well-formed moves: is_semilegal <=> generator membership <=> reference pseudo-legal set; partition identities of the generators.",
     TRUST, "DESIGN.md §6 C06")
 add("C07", "differential PBT against a reference outcome classifier + exhaustive material-multiset enumeration",
-    "600k positions (each re-evaluated at clocks 0/99/100/149/150/65535) and all 10,626+ multisets of <= 4 extra men x square colour x 2 king placements x 2 sides x 5 clocks: calc_outcome / calc_draw_simple in the right class with an applicable reason, has_legal_moves and is_check exact.",
+    "Generated positions (each re-evaluated at clocks 0/99/100/149/150/65535), every 3-man position, and all 10,626+ multisets of <= 4 extra men x square colour x 2 king placements x 2 sides x 5 clocks: calc_outcome / calc_draw_simple in the right class with an applicable reason, has_legal_moves and is_check exact.",
     TRUST, "DESIGN.md §6 C07")
 add("C08", "round-trip PBT with an independent strict FEN reader/writer; parse-format-parse stability on generated and mutated text",
-    "800k valid positions and 800k raw boards round-trip through FEN; output must satisfy an independently written canonical-FEN reader that yields the same position; 1M grammar/mutated/alphabet texts: accepted text is stable under parse-format-parse, canonical text is accepted with the independent meaning.",
+    "Generated valid positions and raw boards round-trip through FEN; output must satisfy an independently written canonical-FEN reader that yields the same position; grammar/mutated/alphabet texts: accepted text is stable under parse-format-parse, canonical text is accepted with the independent meaning.",
     TRUST, "DESIGN.md §6 C08")
 add("C09", "differential PBT against a reference SAN writer; soundness of parsing via an independent tokenizer and the reference legal set",
-    "200k positions (incl. a family built to need file/rank/both hints and pins) x every legal move: text equals the PGN-standard reference, distinct, round-trips; 500k position x text cases (grammar SAN with known meaning, mutated, terse, arbitrary): a returned move is legal, agrees with the text and is the only one that does; ambiguity errors carry two distinct agreeing legal moves; documented spellings must be accepted.",
+    "Generated positions (incl. a family built to need file/rank/both hints and pins) x every legal move: text equals the PGN-standard reference, distinct, round-trips; position x text cases (grammar SAN with known meaning, mutated, terse, arbitrary): a returned move is legal, agrees with the text and is the only one that does; ambiguity errors carry two distinct agreeing legal moves; documented spellings must be accepted.",
     TRUST, "DESIGN.md §6 C09")
 add("C10", "PBT with exhaustive per-position enumeration of all 20,481 UCI strings against reference move sets",
-    "50k positions: every semilegal move round-trips through UCI text including its kind; for every one of the 20,481 strings both checking readers and make::Uci accept exactly when the reference has such a move; the null move is never accepted.",
+    "Generated positions: every semilegal move round-trips through UCI text including its kind; for every one of the 20,481 strings both checking readers and make::Uci accept exactly when the reference has such a move; the null move is never accepted.",
     TRUST, "DESIGN.md §6 C10")
 add("C11", "differential PBT of the validation gate against reference validity and normalisation over generated raw boards",
-    "2M raw boards from 5 sources built to hit every rejection reason and normalisation kind (evidence lists hits per class; zero hits = inconclusive): accept <=> reference-valid, reported reason holds, result equals the reference normalisation and is idempotent and internally consistent.",
+    "Raw boards from 5 sources built to hit every rejection reason and normalisation kind (evidence lists hits per class; zero hits = inconclusive): accept <=> reference-valid, reported reason holds, result equals the reference normalisation and is idempotent and internally consistent.",
     TRUST, "DESIGN.md §6 C11")
 add("C12", "totality fuzzing: generated/mutated/multi-byte strings and exhaustive short strings for 11 parser entry points, with format round trip",
-    "3M generated strings (grammar, mutated valid text, multi-byte substitutions with coinciding byte lengths, arbitrary scalar values, ~10 kB inputs) and every string of length <= 3 over a 25-symbol alphabet for each entry point, in release and checked builds: no panic, and parse(format(v)) == v for every accepted value. cargo-fuzz target fuzz_text (thorough) shares the oracle.",
+    "Generated strings (grammar, mutated valid text, multi-byte substitutions with coinciding byte lengths, arbitrary scalar values, ~10 kB inputs) and every string of length <= 3 over a 25-symbol alphabet for each entry point, in release and checked builds: no panic, and parse(format(v)) == v for every accepted value. cargo-fuzz target fuzz_text (thorough) shares the oracle.",
     TRUST, "DESIGN.md §6 C12")
 add("C13", "model-based stateful PBT over MoveChain operation histories (list-of-moves model + replay)",
-    "150k generated histories of up to 70 operations (pushes through six routes, refused values, pops, outcome operations, clones) interpreted against a (start, moves, outcome) model with reference positions; full move-list and replay comparison; equality/inequality of chains built by different routes.",
+    "Generated histories of up to 70 operations (pushes through six routes, refused values, pops, outcome operations, clones) interpreted against a (start, moves, outcome) model with reference positions; full move-list and replay comparison; equality/inequality of chains built by different routes.",
     TRUST, "DESIGN.md §6 C13")
 add("C14", "model-based stateful PBT with an occurrence-multiset model of repetitions + exhaustive filter table",
-    "240k shuffle-biased and directed repetition histories (pops, look-alike positions, clocks near the limits): calc_outcome must be in the model's class (forced > mandatory > claimable > none) with an applicable reason after every operation; set_auto_outcome against an independent filter table for all three filters; Outcome::passes/is_force enumerated over 22 x 3.",
+    "Shuffle-biased and directed repetition histories, plus one position recurring 70-301 times and unwound, (pops, look-alike positions, clocks near the limits): calc_outcome must be in the model's class (forced > mandatory > claimable > none) with an applicable reason after every operation; set_auto_outcome against an independent filter table for all three filters; Outcome::passes/is_force enumerated over 22 x 3.",
     TRUST, "DESIGN.md §6 C14")
 add("C15", "exhaustive enumeration of all table entries (leapers, pairs, all relevant-blocker subsets) against ray walking, plus random occupancies",
-    "Through read-only hooks: all leaper/pawn entries, all 4,096 pairs, all 107,648 relevant-blocker subsets per slider x (bare, all irrelevant bits, own square, k random irrelevant patterns), and 10M random 64-bit occupancies; the tables are those of the build under test (build.rs is re-run by cargo when it changes).",
+    "Through read-only hooks: all leaper/pawn entries, all 4,096 pairs, all 107,648 relevant-blocker subsets per slider x (bare, all irrelevant bits, own square, k random irrelevant patterns), and tens of millions of random 64-bit occupancies; the tables are those of the build under test (build.rs is re-run by cargo when it changes).",
     TRUST + " Exhaustive over relevant blocker subsets, sampled over irrelevant bits.", "DESIGN.md §6 C15")
 add("C16", "differential PBT of attack/check queries against reference ray-walking geometry",
-    "500k positions x 64 squares x 2 colours: is_cell_attacked, cell_attackers, is_check, checkers equal the reference.",
+    "Generated positions x 64 squares x 2 colours: is_cell_attacked, cell_attackers, is_check, checkers equal the reference.",
     TRUST, "DESIGN.md §6 C16")
 add("C17", "model-based PBT of Walker scripts (cursor model) and printing (independently assembled text)",
-    "120k chains x generated walker scripts (next/prev/start/end): every returned (position, move) equals an independent replay as a full snapshot and the chain stays untouched; UCI list rebuilds an equal chain; styled() for 3 number policies x 3 styles x 2 status policies equals an independently assembled string.",
+    "Generated chains x generated walker scripts, and chains of more than 2^16 plies (next/prev/start/end): every returned (position, move) equals an independent replay as a full snapshot and the chain stays untouched; UCI list rebuilds an equal chain; styled() for 3 number policies x 3 styles x 2 status policies equals an independently assembled string.",
     TRUST, "DESIGN.md §6 C17")
 add("C18", "metamorphic PBT: colour mirror and left-right mirror of generated positions",
-    "800k positions: the mirrored position must validate unchanged and have exactly the mirrored legal / semilegal / capture move sets and the same check / outcome classification (winner swapped); no reference model involved.",
+    "Generated positions: the mirrored position must validate unchanged and have exactly the mirrored legal / semilegal / capture move sets and the same check / outcome classification (winner swapped); no reference model involved.",
     "Trusts rustc/cargo, proptest; compares the library with itself under a symmetry of the rules.", "DESIGN.md §6 C18")
 add("C19", "directed search (simulated annealing) for the move-list bound, checked-build execution of all queries, exhaustive magic-index bounds",
-    "Search for a position with > 256 semilegal moves through a safe Vec sink (best found: 242); 300k heavy positions run through every generator and query in a build with debug assertions and overflow checks (out-of-range unchecked access panics/aborts and is attributed to the case); offset + index < table length for every square and every subset of the library's masks (exhaustive, via hook). Thorough adds ASan fuzzing and Miri.",
+    "Search for a position with > 256 semilegal moves through a safe Vec sink (best found: 242); heavy positions run through every generator and query in a build with debug assertions and overflow checks (out-of-range unchecked access panics/aborts and is attributed to the case); offset + index < table length for every square and every subset of the library's masks (exhaustive, via hook). Thorough adds ASan fuzzing and Miri.",
     TRUST + " The 256 bound is attacked by search only: a plateau below the limit is evidence, not proof.", "DESIGN.md §6 C19")
 add("C20", "exhaustive enumeration of all finite value types, all Unicode scalar values, short strings; set-model PBT of Bitboard",
-    "All indices (incl. out-of-range ones that must panic), all 1,112,064 characters, all strings of length <= 3 over a 32-symbol alphabet, all 64 x 141 square/delta pairs and every named constant; Bitboard against a BTreeSet model on all 2^16 sets of each 16-square band and 1.5M random 64-bit sets.",
+    "All indices (incl. out-of-range ones that must panic), all 1,112,064 characters, all strings of length <= 3 over a 32-symbol alphabet, all 64 x 141 square/delta pairs and every named constant; Bitboard against a BTreeSet model on all 2^16 sets of each 16-square band and generated 64-bit sets incl. the extreme ones.",
     "Trusts rustc/cargo, proptest, std::collections::BTreeSet.", "DESIGN.md §6 C20")
